@@ -1,5 +1,5 @@
 (* props/C01.v -- C01: write-then-read returns the same graph (ids, properties, missing masks). *)
-From Geff Require Import Base Dtype Vlen VlenLemmas Tree Validate Write Read RoundTrip WriteLemmas ReadLemmas ValidateLayout C01Lemmas.
+From Geff Require Import Base Dtype Vlen VlenLemmas Tree Validate Write Read RoundTrip WriteLemmas ReadLemmas ValidateLayout C01Lemmas WriteTotal.
 Open Scope string_scope.
 Open Scope list_scope.
 
@@ -20,6 +20,41 @@ Theorem C01_roundtrip : forall k pre g md md' n e ov,
                (up_props (backfill (w_nids g) md (w_nprops g))) (up_props (w_eprops g))).
 Proof. exact write_then_read. Qed.
 Print Assumptions C01_roundtrip.
+
+(* THE WRITE SUCCEEDS, without assuming it.  The statement above carries `final_metadata g md = Ok md'` and, inside wf_input,
+   `encodable` -- both "a failing function of the model succeeds".  They are discharged here:
+   C01_storable_iff -- a property can be stored under a name iff the name is not empty, its dtype (float16 read as float32) is one of
+   geff's, and, when variable-length, it has at least one element and all elements have one dtype and one rank;
+   C01_wf_props_declarative -- hence wf_input's property premise in declarative form;
+   C01_final_metadata_total -- under wf_input the metadata computation can only fail on an axis property whose array holds fewer
+   values than its shape says (axes_have_data excludes it; no numpy array is like that);
+   C01_roundtrip_total -- the round trip with no success premise. *)
+Theorem C01_storable_iff : forall name p, encodable (name, p) <-> storable name p.
+Proof. exact encodable_iff. Qed.
+Print Assumptions C01_storable_iff.
+
+Theorem C01_wf_props_declarative : forall n ops,
+  wf_props n ops <->
+  forall ps, ops = Some ps -> NoDup (akeys ps) /\ Forall (fun kv => storable (fst kv) (snd kv) /\ wf_prop n (snd kv)) ps.
+Proof. exact wf_props_declarative. Qed.
+Print Assumptions C01_wf_props_declarative.
+
+Theorem C01_final_metadata_total : forall g md n e,
+  wf_input g md n e -> axes_have_data g md -> exists md', final_metadata g md = Ok md'.
+Proof. exact final_metadata_total. Qed.
+Print Assumptions C01_final_metadata_total.
+
+Theorem C01_roundtrip_total : forall k pre g md n e ov,
+  clean k pre -> wf_input g md n e -> axes_have_data g md ->
+  exists md' tr post,
+    final_metadata g md = Ok md' /\
+    write_arrays k g md true ov (init pre) = (mkst (Some post) tr, Ok tt) /\
+    validate_structure k (Some post) = Ok tt /\
+    read_to_memory k (Some post) true None None
+    = Ok (mkmg md' (w_nids g) (w_eids g)
+               (up_props (backfill (w_nids g) md (w_nprops g))) (up_props (w_eprops g))).
+Proof. exact write_then_read_total. Qed.
+Print Assumptions C01_roundtrip_total.
 
 (* what is stored is the documented layout: nodes/ids, edges/ids, props/<name>/{values,missing,data}, attrs["geff"] *)
 Theorem C01_layout : forall k pre g md md' v ov n,
@@ -90,3 +125,21 @@ Proof.
   vm_compute. repeat split.
 Qed.
 Print Assumptions C01_empty_vlen_refuted.
+
+(* non-vacuity of the total statement: the example graph's axis property holds its values; a property with an empty name,
+   a var-length property of mixed rank and an empty var-length property are not storable *)
+Example C01_total_nonvacuous :
+  axes_have_data ex_g ex_md /\
+  storable "v" (mkprop (PVlen [Build_varr DF16 [1%nat] [7]%Z; Build_varr DF32 [0%nat] []]) None) /\
+  ~ storable "" (mkprop (PFixed (mkarr DI8 [1%nat] [1]%Z)) None) /\
+  ~ storable "v" (mkprop (PVlen [Build_varr DI8 [1%nat] [7]%Z; Build_varr DI8 [1%nat; 1%nat] [8]%Z]) None) /\
+  ~ storable "v" (mkprop (PVlen []) None).
+Proof.
+  split.
+  - intros axes ps ax a Hax Hps Hin Hinp. vm_compute in Hax, Hps. inversion Hax; subst axes; clear Hax.
+    inversion Hps; subst ps; clear Hps. destruct Hin as [<-|[]]. cbn [ax_name] in Hinp.
+    destruct Hinp as [E|[E|[E|[]]]]; inversion E; subst; reflexivity.
+  - split; [split; [discriminate | cbn; split; [reflexivity | repeat constructor]]|].
+    split; [intros [H _]; apply H; reflexivity|].
+    split; [intros [_ [_ H]]; cbn in H; inversion H as [|? ? [_ Hr] _]; discriminate | intros [_ []]].
+Qed.
